@@ -15,7 +15,7 @@ LABEL_POOL = [
     "step size = 0.25", "window size=0", "size = 0",
     "[noise], [laugh]", '"a": [1, 2], "b"', "}, {", "\\n not a newline", "\\u00e9", "ooTextFile", "says ooTextFile here", "File type",
 ]
-WS_LABELS = [" ", "  \t", "\n", " pad ", "\nlead", "trail \n", "\t a  b \t", " \u00e9 "]  # surrounding / only white space (file-level data; tiers store labels stripped)
+WS_LABELS = [" ", "  \t", "\n", " pad ", "\nlead", "trail \n", "\t a  b \t", " \u00e9 ", "\u00a0nb", "wide\u3000", "\x1funit", "em\u2003", "\x85nel", "\tindented"]  # surrounding / only white space (file-level data; tiers store labels stripped)
 KEYWORD_LABELS = ['item [2]:', 'intervals [1]:', 'points [1]:', '"IntervalTier"', '"TextTier"', 'class = "IntervalTier"', 'text = "x"',
                   'ooTextFile short', 'item[1]:', 'intervals: size = 2', 'before\nitem [3]:\nafter', 'name = "fake"', 'xmin = 5']
 
